@@ -30,6 +30,28 @@ class Sun(object):
         return f"Sun({self.n!r})"
 
 
+class TaggedStr(str):
+    """a subclass of a builtin result type with state of its own (no codec handles it: it is pickled)"""
+
+    def __new__(cls, text, tag=None):
+        o = super().__new__(cls, text)
+        o.tag = tag
+        return o
+
+    def __reduce__(self):
+        return (TaggedStr, (str(self), self.tag))
+
+
+class TaggedBytes(bytes):
+    def __new__(cls, data, tag=None):
+        o = super().__new__(cls, data)
+        o.tag = tag
+        return o
+
+    def __reduce__(self):
+        return (TaggedBytes, (bytes(self), self.tag))
+
+
 def make_codecs():
     from dds.structures import FileCodecProtocol, CodecProtocol, ProtocolRef
     from dds.structures_utils import SupportedTypeUtils as STU
